@@ -252,3 +252,19 @@ theorem npUnique_length_eq_one {l : List Nat} :
       exact absurd (hx.trans hy.symm) this
 
 end SkNet.Connectivity
+
+namespace SkNet.Connectivity
+open SkNet
+
+theorem subMatrix_row_length (m : Mat) (r c : List Nat) : ∀ row ∈ subMatrix m r c, row.length = c.length := by
+  intro row hrow
+  simp only [subMatrix, List.map_map, List.mem_map] at hrow
+  obtain ⟨i, _, rfl⟩ := hrow
+  simp
+
+/-- the labels of the rows and of the columns of a block labelling add up -/
+theorem count_take_drop (labels : List Nat) (k L : Nat) :
+    (labels.take k).count L + (labels.drop k).count L = labels.count L := by
+  rw [← List.count_append, List.take_append_drop]
+
+end SkNet.Connectivity
